@@ -45,11 +45,19 @@ type Config struct {
 	MemRate       int64
 	NoFee         bool
 	NewAcctAmount int64
+	MaxBlockMB    int // max block size in MB (0 = 16)
 }
 
 // DefaultConfig is the chain used by most checks: 4 funded identities, award 1000, no gas.
 func DefaultConfig() Config {
 	return Config{Award: "1000", Quota: []string{"1000000", "1000000", "1000000", "1000000"}}
+}
+
+func (c Config) blockMB() int {
+	if c.MaxBlockMB == 0 {
+		return 16
+	}
+	return c.MaxBlockMB
 }
 
 // GenesisJSON renders the genesis document for a config.
@@ -68,7 +76,7 @@ func (c Config) GenesisJSON() []byte {
 	doc := map[string]interface{}{
 		"version":         "1",
 		"predistribution": pds,
-		"maxblocksize":    "16",
+		"maxblocksize":    fmt.Sprintf("%d", c.blockMB()),
 		"award":           c.Award,
 		"decimals":        "8",
 		"nofee":           c.NoFee,
